@@ -806,6 +806,9 @@ def o_events(v: View, stats=None):
         if want != gotl:
             yield "breaker-events-differ-from-transitions", f"breaker said {want}; the log hook received {gotl}" + ("" if only == "both" else " (no metric hook attached)")
     for e in spy:
+        if e[0] == "br.silent":
+            yield "breaker-transition-not-reported", f"the breaker went from {e[2]} to {e[3]} inside {e[1]}() without handing back an event: no hook can have been told"
+    for e in spy:
         if e[0] == "br.allow" and e[3] is not None and len(e) > 5 and e[2] != e[5]:
             yield "breaker-event-state-is-not-the-breakers-state", f"allow() reported state {e[2]!r} with event {e[3]} while the breaker's state is {e[5]!r}"
     if stats is not None:
